@@ -11,6 +11,8 @@ NAMES = {1: "identity", 2: "gzip", 3: "br", 4: "zstd", 5: "deflate", 6: "snappy"
 PKG = "internal/compression"
 
 TEXT = b"hello hello hello world"
+LONG5 = 20000         # random histories of length 5 per stateful encoding in the quick tier
+SIZES = (0, 1, 1, 2, 3, 7, 64, 511, 512, 513, 4096, 70000)
 
 
 class Oracle:
@@ -54,25 +56,37 @@ class Oracle:
 class C20(Prop):
     id = "C20"
     props = "C20_Props"
-    coq_files = ("Base", "C20_Consts", "C20_Model", "C20_Spec", "C20_Proofs", "C20_Names", "C20_Props")
+    coq_files = ("Base", "C20_Consts", "C20_Model", "C20_Spec", "C20_Proofs", "C20_Proofs2", "C20_Names", "C20_Props")
     models = ("C20_Model",)
     packages = {"cmp": PKG, "tr": "internal/tracer", "rs": "internal/app/referenceserver",
                 "rc": "internal/app/referenceclient", "int": "internal"}
     kinds = {"c20.hist": "cmp", "c20.enum": "cmp", "c20.names": "cmp", "c20.tracer": "tr", "c20.check": "rs",
-             "c20.server": "rs", "c20.client": "rc", "c20.raw": "int"}
+             "c20.server": "rs", "c20.client": "rc", "c20.raw": "int",
+             "c20.trhist": "tr", "c20.rawrt": "int", "c20.live": "rs", "c20.clive": "rc", "c20.cstream": "rc"}
     consts = ("cmp", "tr", "rs", "rc", "int")
     go_timeout = 1500
     rule = ("c20.hist: scripted histories on ONE compressor and ONE decompressor obtained from GetCompressor/GetDecompressor "
-            "(and from the New* constructors): every history of length <= 3 (quick; <= 4 thorough, sampled in quick) over "
-            "{Reset(valid), Reset(valid empty payload), Reset(header-corrupt), Reset(body-corrupt), Reset(silently different), "
-            "Reset(empty source), ReadAll, Read(5), Close} x 6 encodings; every single-bit flip (quick: 64 per encoding) and every "
-            "cut of the compressed form of small payloads placed before a valid session in three reuse templates (direct, "
-            "Close between, connect-go pool protocol with Reset(NoBody)); every compressor history of length <= 4 over "
-            "{Reset, Write, Write(empty), Close} followed by decoding every closed destination on the reused decompressor; "
-            "random pool-protocol histories of 10-40 steps with payloads {empty, 1 byte, text, 300 random bytes, 64 KiB zeros} "
-            "and three ways of presenting a source (*bytes.Buffer, plain reader, one byte per Read). Sources are classified "
-            "by a fresh third-party reader in a first pass. Compared per step: ok / err / crash and 'decoded equals what a "
-            "fresh reader decodes'; compressed bytes never. c20.enum/names/tracer/check/server/client/raw: every enum value "
+            "(and from the New* constructors): every history of length <= 3 (quick; <= 4 thorough, sampled in quick; 20000 random "
+            "of length 5 for gzip, br, zstd whose wrappers carry state) over {Reset(valid), Reset(valid empty payload), "
+            "Reset(header-corrupt), Reset(body-corrupt), Reset(silently different), Reset(empty source), ReadAll, limited read "
+            "loop, ONE Read(p) with len(p) = 0 / 1 / 7, Close} x 6 encodings; every single-bit flip (quick: 64 per encoding) and "
+            "every cut of the compressed form of small payloads placed before a valid session in three reuse templates (direct, "
+            "Close between, connect-go pool protocol with Reset(NoBody)); reading in pieces: random partitions of the output of "
+            "six sources (empty .. 64 KiB) into single Read(p) calls with len(p) in {0,1,2,3,7,64,511,512,513,4096,70000} mixed "
+            "with read loops, one byte at a time with zero-length reads in between, io.EOF asked for repeatedly; every compressor "
+            "history of length <= 4 over {Reset, Write, Write(empty), Close} followed by decoding every closed destination on the "
+            "reused decompressor; random pool-protocol histories of 10-40 steps with payloads {empty, 1 byte, text, 300 random "
+            "bytes, 64 KiB zeros} and three ways of presenting a source (*bytes.Buffer, plain reader, one byte per Read). "
+            "c20.trhist: the same histories on the decompressor tracer.GetDecompressor(name) hands out. Sources are classified by "
+            "a fresh third-party reader in a first pass (a malformed source that decodes differently when read in pieces is not a "
+            "case). Compared per step (C20_Model.obs_step, the projection theorem library_independent speaks about): ok / err / "
+            "crash and 'delivered what a fresh reader decodes' (ONE Read: a prefix of it, io.EOF not before its end); compressed "
+            "bytes never. c20.rawrt: WriteRawMessageContents / WriteRawStreamContents for every enum value x 4 forms x payloads "
+            "incl. the EMPTY one, decoded by a fresh reader. c20.live / c20.clive / c20.cstream: corrupted (one bit flipped) or "
+            "cut compressed bodies followed by valid ones (payloads 0..70000 bytes) under each of the 5 non-identity encodings, "
+            "over one keep-alive connection to the LIVE reference server, in responses to the LIVE reference client (invoke), and "
+            "within one server stream: every valid message must succeed and decode to what was sent (thorough: every single-bit "
+            "flip and every cut of the small request bodies). c20.enum/names/tracer/check/server/client/raw: every enum value "
             "-1..9 and every name string (plus case variants, unknown names, absent header) at each of the five places. "
             "non-trivial = a step decoded the expected bytes, or a name-table case")
     trusted_base = ("Coq 8.16.1 kernel (vm_compute used, native_compute not)", "extraction (ExtrOcamlBasic only) + ocaml/driver.ml",
@@ -80,36 +94,55 @@ class C20(Prop):
                     "server.go / client.go option lists)",
                     "modelled not verified: compress/gzip, compress/zlib, andybalholm/brotli, golang/snappy, klauspost/compress/zstd "
                     "(abstract reader/writer objects with the contract of C20_Spec.v: a Reset or new object behaves as a fresh one, "
-                    "malformed input is an error not a panic, decode(encode x) = x); connect-go's compressionPool (its protocol is "
-                    "the inductive pool_history)")
+                    "malformed input is an error not a panic, decode(encode x) = x, ONE Read delivers some prefix of what is to come "
+                    "and io.EOF not before its end); connect-go's compressionPool (its protocol is the inductive pool_history); "
+                    "sync.Pool handing the same instance back (live sequences run with GOMAXPROCS(1) to make that the rule)")
     assumptions = ("the third-party readers/writers satisfy lib_contract / wlib_contract of C20_Spec.v (tested on every run by the "
                    "history sweep: that is what the differential comparison exercises)",
+                   "read_loop_terminates only: lib_progress (a Read into a non-empty buffer delivers a byte or io.EOF) — io.Reader "
+                   "merely discourages (0, nil); exercised by every io.ReadAll of the sweep terminating",
+                   "library_independent for histories that do not begin with a Reset: the two libraries agree on whether an object "
+                   "that never had a source panics (nosrc_alike; shown necessary by ex_nosrc_matters); not needed for pool histories",
                    "sources and destinations handed to Reset are plain io.Reader / io.Writer values (bytes.Buffer); a source that "
                    "is itself an io.ReadCloser is closed by the identity decompressor's Close",
                    "zstd.NewReader(nil) / zstd.NewWriter(nil) do not fail (the errorDecompressor/errorCompressor path of the "
                    "constructors is modelled but not reachable)")
     level_text = ("Machine-checked proof (Coq) about the wrapper state machines of internal/compression over an abstract library: "
                   "for ALL histories and byte strings, a Reset followed by a read returns exactly what a fresh library reader returns "
-                  "(hence round-trip, also after Close, after Reset, after a failed decode), no history that starts with a Reset "
-                  "panics (in particular none that connect-go's pools produce), and the five name tables regenerated from the Go "
-                  "code agree (by computation). The model is tied to the Go code by a bounded-exhaustive plus random differential run "
-                  "of scripted histories against the real libraries on every check.")
+                  "(hence round-trip, also after Close, after Reset, after a failed decode); reads in pieces — ANY sequence of single "
+                  "Read(p) calls of any size, zero included, and read loops, under ANY way the library cuts its output — deliver in "
+                  "order a prefix of the decoded bytes and exactly them once io.EOF is seen; Close after such a session returns ok; "
+                  "no history that starts with a Reset panics (in particular none that connect-go's pools produce); the projected "
+                  "outcomes the differential run compares are the same over ANY two libraries satisfying the contract (so the "
+                  "stand-in codec used for extraction is representative); and the five name tables regenerated from the Go code "
+                  "agree (by computation). The model is tied to the Go code by a bounded-exhaustive plus random differential run "
+                  "of scripted histories against the real libraries, and by live corrupted-then-valid sequences through the "
+                  "reference server and client, on every check.")
     level_note = ("Conditional on the library contract (Section hypotheses, inhabited by the stand-in codec used for extraction): the "
                   "codecs themselves are third-party and not verified; 'decode(encode x) = x' for them is tested, not proved. "
-                  "Correspondence model/Go is sampled (bounded-exhaustive histories), not proved. Results of steps the contract leaves "
-                  "open (reads after a failure or Close of a library object) are compared only as panicked / did not panic.")
-    technique = "Coq proof (invariant over wrapper states, all histories) + computation over regenerated tables; differential model-vs-Go on scripted histories"
+                  "Termination of a loop of single reads needs the extra hypothesis lib_progress. Correspondence model/Go is sampled "
+                  "(bounded-exhaustive histories), not proved. Results of steps the contract leaves open (reads after a failure or "
+                  "Close of a library object, single reads of a failing stream) are compared only as panicked / did not panic. Live "
+                  "sequences rely on sync.Pool handing the instance back (not guaranteed by Go, made the rule with one P).")
+    technique = ("Coq proof (invariant over wrapper states, all histories; simulation of two libraries for the projection) + "
+                 "computation over regenerated tables; differential model-vs-Go on scripted histories and live sequences")
 
     # ------------------------------------------------------------------
     def nontrivial(self, case, res):
-        if case[0] == "c20.hist":
+        if case[0] in ("c20.hist", "c20.trhist", "c20.live", "c20.clive", "c20.cstream", "c20.rawrt"):
             return "(#6f6b 1)" in res
         return True
 
     def describe(self, case, g, m):
-        if case[0] == "c20.hist":
+        if case[0] in ("c20.hist", "c20.trhist"):
             return ("compressor/decompressor history: the real instance (impl) and the proved wrapper model (model) differ in "
                     "ok/err/crash or in 'decoded equals what a fresh reader decodes' at some step")
+        if case[0] in ("c20.live", "c20.clive", "c20.cstream"):
+            return ("live sequence through connect-go's pools (reference server / reference client): a valid message did not "
+                    "succeed or did not decode to what was sent ((ok 0)), possibly after a corrupted one, or something panicked")
+        if case[0] == "c20.rawrt":
+            return ("raw-payload encoder: what it wrote for this payload does not decode, with a fresh reader of the "
+                    "requested algorithm, to the payload")
         return "encoding name / enum table: this place maps a name or enum value differently from the proved table"
 
     # ------------------------------------------------------------------
@@ -168,7 +201,7 @@ class C20(Prop):
         # ---- A. every short history over the decompressor alphabet ------------------------------
         for a in ALGS:
             alpha = {"G": lit(a, 0, comp[(a, TEXT)]), "g": lit(a, 0, comp[(a, b"")]), "E": lit(a, 0, b""),
-                     "R": [5], "N": [6, 5], "C": [7]}
+                     "R": [5], "N": [6, 5], "C": [7], "p": [8, 0], "q": [8, 1], "r": [8, 7]}
             for key, pred in (("H", lambda c, y: c == 0), ("B", lambda c, y: c == 2 and len(y) > 0),
                               ("b", lambda c, y: c == 2 and len(y) == 0), ("S", lambda c, y: c == 1 and y != TEXT and len(y) > 0)):
                 s = pick(a, pred)
@@ -188,6 +221,19 @@ class C20(Prop):
                         if quick and n == 3 and rng.random() < 0.7:
                             continue
                         yield ["c20.hist", a, 1, [alpha[c] for c in h]]
+            if a in (2, 3, 4):
+                # the encodings whose wrappers carry state of their own (gzip: nil until a Reset succeeded; brotli:
+                # a new Reader per Reset; zstd: decoder dropped at Close): longer histories
+                for _ in range(LONG5 if quick else 4 * LONG5):
+                    h = [rng.choice(letters) for _ in range(5)]
+                    yield ["c20.hist", a, 0 if (a < 3 or rng.random() < 0.5) else 1, [alpha[c] for c in h]]
+            # the same instance as the wire tracer hands it out for the encoding NAME
+            for n in (1, 2):
+                for h in itertools.product(letters, repeat=n):
+                    yield ["c20.trhist", a, rng.choice((2, 3)), [alpha[c] for c in h]]
+            for _ in range(300 if quick else 3000):
+                h = [rng.choice(letters) for _ in range(rng.randint(3, 5))]
+                yield ["c20.trhist", a, rng.choice((2, 3)), [alpha[c] for c in h]]
 
         # ---- B. a corrupted message before a valid one ----------------------------------------------
         for a in ALGS:
@@ -282,6 +328,82 @@ class C20(Prop):
                         ops.append([7])
                     ops.append(lit(a, 0, b""))
             yield ["c20.hist", a, 0 if a < 3 or rng.random() < 0.5 else 1, ops]
+
+        # ---- G. reading in pieces: any partition of the output into single Read(p) calls ----------------
+        for a, c in zip(ALGS, mids):
+            srcs = [(comp[(a, b"")], 0), (comp[(a, b"a")], 1), (comp[(a, TEXT)], len(TEXT)), (comp[(a, rnd)], len(rnd)),
+                    (c, len(midp)), (comp[(a, big)], len(big))]
+            nobody = lit(a, 0, b"")
+            # the whole of TEXT one byte at a time, zero-length reads in between, EOF asked for repeatedly
+            for k in (0, 1, 2):
+                g = lit(a, k, comp[(a, TEXT)])
+                yield ["c20.hist", a, 0, [g] + [[8, 1]] * (len(TEXT) + 3) + [[7]]]
+                yield ["c20.hist", a, 0, [g] + [[8, 0], [8, 1]] * len(TEXT) + [[8, 0], [8, 5], [8, 5], [5], [7], nobody,
+                                                                              g, [8, 3], [7], g, [5], [8, 1], [7]]]
+            for _ in range(260 if quick else 3000):
+                ops = []
+                for _s in range(rng.randint(1, 3)):
+                    src, ln = rng.choice(srcs if rng.random() < 0.3 else srcs[:5])
+                    ops.append(lit(a, rng.choice((0, 0, 1, 2)), src))
+                    for _r in range(rng.randint(0, 10)):
+                        ops.append([8, rng.choice(SIZES)] if rng.random() < 0.8 else [6, rng.choice(SIZES)])
+                    if rng.random() < 0.7:
+                        ops.append([5])
+                        if rng.random() < 0.3:
+                            ops += [[8, rng.choice(SIZES)], [8, 0]]
+                    if rng.random() < 0.8:
+                        ops.append([7])
+                        if rng.random() < 0.5:
+                            ops.append(nobody)
+                kind_, ctor = ("c20.hist", 0 if a < 3 or rng.random() < 0.5 else 1) if rng.random() < 0.8 else ("c20.trhist", 2)
+                yield [kind_, a, ctor, ops]
+            # single reads on corrupted sources (results open; must not panic, next session unaffected)
+            good = lit(a, 0, comp[(a, TEXT)])
+            for s_ in rng.sample(usable[a], min(len(usable[a]), 40 if quick else 400)):
+                bad = lit(a, 0, s_)
+                yield ["c20.hist", a, 0, [bad, [8, rng.choice(SIZES)], [8, 1], [8, 0], [7], nobody, good, [8, 7], [5], [7]]]
+
+        # ---- H. the raw-payload encoders: every enum value x every form x payloads, the EMPTY one included ----
+        for e in range(-1, 9):
+            for form in range(4):
+                for pl in (b"", b"a", TEXT, rnd) + ((big,) if form == 0 else ()):
+                    yield ["c20.rawrt", e, form, pl]
+
+        # ---- I. LIVE: corrupted / truncated bodies before valid ones through connect-go's pools -----------
+        # reference server (request bodies, one keep-alive connection), reference client (response bodies; one
+        # connect client per invoke, so the reuse across messages is exercised by server streams)
+        def live_seq(pairs, ns):
+            seq = [[0, rng.choice(ns)]]
+            for _p in range(pairs):
+                n = rng.choice(ns)
+                seq.append([1, n, rng.randrange(1 << 20)] if rng.random() < 0.75 else [2, n, rng.randrange(1 << 20)])
+                seq.append([0, rng.choice(ns)])
+            return seq
+        small = (0, 1, 10, 300)
+        for a in ALGS[1:]:
+            for _ in range(30 if quick else 150):
+                yield ["c20.live", a, live_seq(12, small if rng.random() < 0.9 else (300, 70000))]
+            for _ in range(15 if quick else 60):
+                yield ["c20.clive", a, live_seq(4, small if rng.random() < 0.9 else (300, 70000))]
+            for _ in range(16 if quick else 80):
+                ns = [rng.choice(small + ((70000,) if rng.random() < 0.1 else ())) for _i in range(rng.randint(1, 6))]
+                r = rng.random()
+                bad = [] if r < 0.4 else ([1, rng.choice(small), rng.randrange(1 << 20)] if r < 0.8 else
+                                          [2, rng.choice(small), rng.randrange(1 << 20)])
+                yield ["c20.cstream", a, ns, bad]
+            if not quick:
+                # every single-bit flip and every cut of the small request bodies, each followed by a valid message
+                for n in (0, 1, 10, 300):
+                    bits = 8 * (8 + n) * 2
+                    for lo in range(0, bits, 24):
+                        seq = [[0, n]]
+                        for b in range(lo, min(bits, lo + 24)):
+                            seq += [[1, n, b], [0, n]]
+                        yield ["c20.live", a, seq]
+                    seq = [[0, n]]
+                    for cut in range(0, 64 + n):
+                        seq += [[2, n, cut], [0, rng.choice(small)]]
+                    yield ["c20.live", a, seq]
 
         # ---- E. names and enum values at the five places ---------------------------------------------
         enums = list(range(-1, 10))
